@@ -341,7 +341,7 @@ func runProgram(t *rapid.T, focus string) {
 			ens := ensemble()
 			from := ens[rapid.IntRange(0, len(ens)-1).Draw(t, "swapFrom")]
 			to := s.spares[0]
-			if evid.Known(kfSwapBehind) {
+			if swapFindingKnown() {
 				// excluded by construction while the finding is listed: swap only while the coordinator can reach every
 				// member of the old ensemble and every node is up
 				ok := true
@@ -361,7 +361,7 @@ func runProgram(t *rapid.T, focus string) {
 				}
 				c.wire.mu.Unlock()
 				if !ok {
-					evid.Excluded("C01", kfSwapBehind)
+					evid.Excluded(focus, "swap-elects-node-behind-a-fenced-removed-node")
 					continue
 				}
 			}
@@ -502,6 +502,15 @@ func runProgram(t *rapid.T, focus string) {
 }
 
 const kfSwapBehind = "C01:swap-elects-node-behind-a-fenced-removed-node"
+
+// The same root cause is listed once per property it breaks: the lost write is also a read that observed data
+// which was later rolled back (C02) and a log that differs from an acknowledged entry at its offset (C03).
+const kfSwapBehindC02 = "C02:swap-elects-node-behind-a-fenced-removed-node"
+const kfSwapBehindC03 = "C03:swap-elects-node-behind-a-fenced-removed-node"
+
+func swapFindingKnown() bool {
+	return evid.Known(kfSwapBehind) || evid.Known(kfSwapBehindC02) || evid.Known(kfSwapBehindC03)
+}
 
 // ---- oracles over the recorded history ----------------------------------------------------------------------------------
 
@@ -1106,19 +1115,24 @@ func TestC05_Cluster(t *testing.T) { rapid.Check(t, func(t *rapid.T) { runProgra
 var _ = model.ShardStatusSteadyState
 
 
-// TestKF_C01 re-confirms the listed finding with a scripted schedule (no generator).
-func TestKF_C01(t *testing.T) {
-	if !evid.Known(kfSwapBehind) {
+// TestKF_C01 / _C02 / _C03 re-confirm the listed finding with a scripted schedule (no generator), each looking at
+// the consequence that its property forbids.
+func TestKF_C01(t *testing.T) { kfSwap(t, "C01", kfSwapBehind) }
+func TestKF_C02(t *testing.T) { kfSwap(t, "C02", kfSwapBehindC02) }
+func TestKF_C03(t *testing.T) { kfSwap(t, "C03", kfSwapBehindC03) }
+
+func kfSwap(t *testing.T, prop, sig string) {
+	if !evid.Known(sig) {
 		return
 	}
 	for attempt := 0; attempt < 3; attempt++ {
-		if kfSwapOnce(t) {
+		if kfSwapOnce(t, prop, sig) {
 			return
 		}
 	}
 }
 
-func kfSwapOnce(t *testing.T) bool {
+func kfSwapOnce(t *testing.T, prop, sig string) bool {
 	dir, err := os.MkdirTemp(tmpRoot, "kf01-")
 	if err != nil {
 		t.Fatalf("mkdtemp: %v", err)
@@ -1151,6 +1165,8 @@ func kfSwapOnce(t *testing.T) bool {
 	if op.Outcome != OutcomeOK {
 		return false
 	}
+	before := &ClientOp{ID: 2, Node: leader, Tag: "kfr1", Read: &proto.GetRequest{Key: "a", IncludeValue: true}}
+	c.doRead(before, 3*time.Second)
 	// f1 (which has the write) answers the next NewTerm late; the old leader is swapped out
 	hold := make(chan struct{})
 	c.wire.mu.Lock()
@@ -1178,7 +1194,49 @@ func kfSwapOnce(t *testing.T) bool {
 			}
 		}
 	}
-	evid.KnownFinding("C01", fmt.Sprintf("%s: ensemble {%s,%s,%s}, leader %s; a write is acknowledged with the quorum {%s,%s} (%s lags); SwapNode(%s->%s) while %s answers NewTerm late: newTermQuorum counts a majority over ensemble+removed nodes (the removed %s, the lagging %s and the empty %s) but refuses removed nodes as candidates, so %s is installed with an empty log and the acknowledged write is gone",
-		kfSwapBehind, leader, f1, f2, leader, leader, f1, f2, leader, spare, f1, leader, f2, spare, nl))
+	scenario := fmt.Sprintf("ensemble {%s,%s,%s}, leader %s; a write is acknowledged with the quorum {%s,%s} (%s lags); SwapNode(%s->%s) while %s answers NewTerm late: newTermQuorum counts a majority over ensemble+removed nodes (the removed %s, the lagging %s and the empty %s) but refuses removed nodes as candidates, so %s is installed with an empty log",
+		leader, f1, f2, leader, leader, f1, f2, leader, spare, f1, leader, f2, spare, nl)
+	switch prop {
+	case "C01":
+		evid.KnownFinding("C01", fmt.Sprintf("%s: %s and the acknowledged write is gone", sig, scenario))
+	case "C02":
+		// the read completed before the swap returned the acknowledged value; the same read on the new leader
+		if before.Outcome != OutcomeOK || before.Get == nil || string(before.Get.Value) != "2" {
+			return false
+		}
+		after := &ClientOp{ID: 3, Node: nl, Tag: "kfr2", Read: &proto.GetRequest{Key: "a", IncludeValue: true}}
+		c.doRead(after, 3*time.Second)
+		if after.Outcome != OutcomeOK || after.Get == nil {
+			return false
+		}
+		if after.Get.Status == proto.Status_OK && string(after.Get.Value) == "2" {
+			return true
+		}
+		evid.KnownFinding("C02", fmt.Sprintf("%s: %s; a read of key 'a' completed before the swap returned the acknowledged value \"2\" (version 0), the same read on the new leader answers %v: the first read observed data that was rolled back", sig, scenario, after.Get.Status))
+	case "C03":
+		// f1 acknowledged the entry (term, offset) of the write; the new leader's log holds something else there
+		c.wire.mu.Lock()
+		pos := c.wire.tagPos["kfw"]
+		c.wire.mu.Unlock()
+		if pos == nil {
+			return false
+		}
+		w2 := &ClientOp{ID: 4, Node: nl, Tag: "kfw2", Write: &proto.WriteRequest{Puts: []*proto.PutRequest{{Key: "b", Value: []byte("3")}, {Key: "m/kfw2", Value: []byte("kfw2")}}}}
+		c.doWrite(w2, 3*time.Second)
+		es, okLog = c.nodes[nl].walEntries()
+		if !okLog {
+			return false
+		}
+		what := "nothing"
+		for _, e := range es {
+			if e.Offset == pos.Offset {
+				if e.Term == pos.Term {
+					return true
+				}
+				what = fmt.Sprintf("an entry of term %d %v", e.Term, entryTagsOf(e))
+			}
+		}
+		evid.KnownFinding("C03", fmt.Sprintf("%s: %s; %s and %s had acknowledged entry (term %d, offset %d) of that write, the log of the new leader %s holds %s at offset %d: replica logs diverge at an acknowledged offset", sig, scenario, leader, f1, pos.Term, pos.Offset, nl, what, pos.Offset))
+	}
 	return true
 }
